@@ -28,6 +28,7 @@
 #include <errno.h>
 #include <unistd.h>
 
+#include "iojournal.h"
 #include "version_set.h"
 static int wl_versions_apply(ldb_versions_t *vset, ldb_edit_t *edit, ldb_mutex_t *mu);
 #define ldb_versions_apply wl_versions_apply
@@ -38,7 +39,6 @@ static int wl_versions_apply(ldb_versions_t *vset, ldb_edit_t *edit, ldb_mutex_t
 #include "table/iterator.h"
 #include "util/env.h"
 #include "u_cmp.h"
-#include "iojournal.h"
 
 #define MAXF 64
 #define MAXL 8192
@@ -62,7 +62,11 @@ static void val_token(FILE *f, const uint8_t *p, size_t n) { show_bytes(f, p, n)
 static int was_dumped(uint64_t num) { int i; for (i = 0; i < g_ndumped; i++) if (g_dumped[i] == num) return 1; return 0; }
 
 /* dump one table file with the repo's own reader */
+static void dump_table_inner(FILE *out, const char *dbname, const ldb_dbopt_t *opt, uint64_t num, uint64_t size);
 static void dump_table(FILE *out, const char *dbname, const ldb_dbopt_t *opt, uint64_t num, uint64_t size) {
+  t_nofault++; dump_table_inner(out, dbname, opt, num, size); t_nofault--;
+}
+static void dump_table_inner(FILE *out, const char *dbname, const ldb_dbopt_t *opt, uint64_t num, uint64_t size) {
   char path[1024]; ldb_rfile_t *file = NULL; ldb_table_t *table = NULL; ldb_iter_t *it; int rc, first = 1;
   ldb_readopt_t ro = *ldb_readopt_default;
   ro.verify_checksums = 1; ro.fill_cache = 0;
@@ -289,6 +293,7 @@ static int build_batch(ldb_batch_t *b, const char *ops_in) {
   return ok;
 }
 
+static uint64_t g_seq0 = 0;
 static void do_write(const char *ops, int sync) {
   ldb_batch_t b; ldb_writeopt_t wo = *ldb_writeopt_default; int rc; uint64_t lognum;
   char *copy;
@@ -298,6 +303,7 @@ static void do_write(const char *ops, int sync) {
   lognum = g_db->logfile_number;
   {
     uint64_t seq0 = g_db->versions->last_sequence + 1; int cnt = ldb_batch_count(&b); int j0 = nJ, k;
+    g_seq0 = seq0;
     jmark("wbegin %llu %d %d", (unsigned long long)seq0, cnt, sync);
     rc = ldb_write(g_db, &b, &wo);
     if (g_journal && rc == LDB_OK) {
@@ -310,6 +316,7 @@ static void do_write(const char *ops, int sync) {
     } else if (g_journal) jmark("wfail %llu %d %d", (unsigned long long)seq0, cnt, rc);
   }
   if (g_db->logfile_number != lognum) printf("switch\n");
+  printf("seq0 %llu\n", (unsigned long long)g_seq0);
   if (rc == LDB_OK) { copy = strdup(ops); emit_ops_line(copy, "w"); free(copy); }
   else { copy = strdup(ops); emit_ops_line(copy, "wf"); free(copy); printf("werr %d\n", rc); }
   ldb_batch_clear(&b);
